@@ -1,10 +1,12 @@
 (* C02 - a crash at any flush boundary leaves a consistent, resumable chain prefix.
    Statements only; every proof is [exact lemma].  Model: Node/Crash.v (database traffic of block
    processing, flushes, GC, start-up) and Node/Stages.v (Reset and state jump as stage machines).
-   Section hypotheses of the lemmas (assumptions, not axioms): a backend batch is atomic (the database
-   only ever is [apply_all] of a prefix of the batch list); executing a block is a function of state
-   and block ([exec]); a header-hash page holds more than one hash. *)
-From NG Require Import Common.Tactics Node.Crash Node.CrashProofs Node.Stages Node.StagesProofs Node.StagesWitness Node.StagesMain Node.CrashGC Node.CrashGCProofs Node.CrashGCWitness Node.ResetExact Node.SyncRestore Node.SyncRestoreProofs Node.StorageSync Node.StorageSyncProofs Node.BlockCache.
+   Section hypotheses of the lemmas (assumptions, not axioms): executing a block is a function of state
+   and block ([exec]); a header-hash page holds more than one hash.  That a backend batch is atomic (the
+   database only ever is [apply_all] of a prefix of the batch list) is built into [crash]; it is the explicit
+   premise [backend_atomic] of C02_crash_prefix_backend (Node/Backend.v), refuted without it, and checked on
+   the real backends by the harness. *)
+From NG Require Import Common.Tactics Node.Crash Node.CrashProofs Node.Stages Node.StagesProofs Node.StagesWitness Node.StagesMain Node.CrashGC Node.CrashGCProofs Node.CrashGCWitness Node.ResetExact Node.SyncRestore Node.SyncRestoreProofs Node.StorageSync Node.StorageSyncProofs Node.BlockCache Node.Backend.
 Open Scope N_scope.
 
 Section C02.
@@ -43,6 +45,16 @@ Section C02.
     exists nk, recover (crash bs k) = RNode nk /\ WF false nk /\ height nk <= height n.
   Proof. exact (crash_prefix exec root genesis ntx PS gc_on gcp mtb gc_set trusted PS_big). Qed.
 
+  (* The same with the premise about the BACKEND spelled out (Node/Backend.v).  C02_crash_prefix applies a batch to
+     the database in one step; a real backend cuts a change set into its own transactions ([plan]) and every one of
+     them is a durable state.  For a backend that commits ONE transaction per change set ([backend_atomic]) every
+     durable state of every run re-opens like a batch prefix.  The premise is what the harness checks on BoltDBStore
+     and LevelDBStore (kind "backend", and every flush of the node-level kinds on those backends). *)
+  Theorem C02_crash_prefix_backend : forall (pl : @plan St Rt), backend_atomic pl -> forall ops n bs j,
+    run fresh ops = (n, bs) ->
+    exists nk, recover (durable pl bs j) = RNode nk /\ WF false nk /\ height nk <= height n.
+  Proof. exact (crash_prefix_backend exec root genesis ntx PS gc_on gcp mtb gc_set trusted PS_big). Qed.
+
   (* The recovered node holds the history's state at its height, and whatever it does next, every state
      root it records is the history's root. *)
   Theorem C02_crash_state_is_history : forall ops n bs k nk ops1 m1 b1,
@@ -68,6 +80,7 @@ End C02.
 
 Print Assumptions C02_block_batch_atomic.
 Print Assumptions C02_crash_prefix.
+Print Assumptions C02_crash_prefix_backend.
 Print Assumptions C02_crash_state_is_history.
 Print Assumptions C02_crash_resume_same.
 Print Assumptions C02_gc_crash_safe.
@@ -229,6 +242,46 @@ Proof.
   destruct split_merges_refuted as (A & B & C). repeat split; auto. exact torn_is_no_node.
 Qed.
 Print Assumptions C02_block_reaches_cache_atomically_refuted.
+
+(* ---- ONE change set inside the persistent backend (Node/Backend.v) ---- *)
+
+(* an atomic backend: its durable states are exactly the batch prefixes of Crash.v, and the only durable state of a
+   change set holds all of it *)
+Theorem C02_backend_atomic_durable :
+  forall (St Rt : Type) (pl : @plan St Rt) bs j, backend_atomic pl -> durable pl bs j = crash bs j.
+Proof. exact (@atomic_durable). Qed.
+Print Assumptions C02_backend_atomic_durable.
+
+Theorem C02_backend_none_or_all :
+  forall (St Rt : Type) (pl : @plan St Rt) b c, backend_atomic pl -> In c (counts 0 (pl b)) -> c = length b.
+Proof. exact (@atomic_none_or_all). Qed.
+Print Assumptions C02_backend_none_or_all.
+
+(* any backend that writes all of every change set and nothing else, atomic or not, is at a batch prefix whenever a
+   change set is complete: only the states INSIDE a change set are at stake *)
+Theorem C02_backend_sound_boundary :
+  forall (St Rt : Type) (pl : @plan St Rt) bs k,
+    plan_sound pl -> durable pl bs (length (btxs pl (firstn k bs))) = crash bs k.
+Proof. exact (@sound_boundary). Qed.
+Print Assumptions C02_backend_sound_boundary.
+
+(* without the premise the statement is false: a backend that cuts the flush of block 1 in two (sound, not atomic) *)
+Theorem C02_crash_prefix_backend_refuted :
+  ~ (forall pl : @plan N N, plan_sound pl ->
+       crash_prefix_backend_statement (fun _ i => i) (fun s => s) 0 (fun _ => 1) 2000 false 0 0 (fun _ => []) 0 pl).
+Proof. exact crash_prefix_backend_split_refuted. Qed.
+Print Assumptions C02_crash_prefix_backend_refuted.
+
+(* the witnesses: cut after the first write - the database does not open; cut after the 13th - tip pointer and record
+   of block 1 without its state root: it opens and is a node at no height; the atomic backend - every state opens *)
+Theorem C02_backend_split_witness :
+  plan_sound (@plan_cut N N 1) /\ plan_sound (@plan_cut N N 13) /\
+  bw_reopens (plan_cut 1) 1 = false /\
+  bw_reopens (plan_cut 13) 1 = true /\
+  (forall p h hh, ~ Inv (fun _ i => i) (fun s => s) 0 (fun _ => 1) 2000 (bw_state (plan_cut 13) 1) p h hh) /\
+  forallb (bw_reopens bw_atomic) (seq 0 3) = true.
+Proof. exact backend_split_refuted. Qed.
+Print Assumptions C02_backend_split_witness.
 
 (* ---- the full collector: untraceable blocks and header-hash pages (Node/CrashGC.v) ----
    For every run with collector runs in any position (block records below the target deleted through the write
